@@ -40,6 +40,70 @@ package zcnsc
 //@   ensures result == mint_msg(mp)
 //@   modifies nothing
 
+//   $mintedNonce[n]  mint nonce n has been recorded in the minted-nonce partitions
+//   $numAuth         number of registered authorizers
+//@ ghost $mintedNonce (Int) Bool
+//@ ghost $numAuth Int
+
+// The nonce partition rejects a nonce that is already recorded (partitions: see C25).
+//@ func PartitionWZCNMintedNonceAdd
+//@   trusted
+//@   ensures result == nil ==> !old($mintedNonce[nonce]) && $mintedNonce[nonce]
+//@   ensures result == nil ==> forall n int64 :: n != nonce ==> $mintedNonce[n] == old($mintedNonce[n])
+//@   ensures result != nil ==> forall n int64 :: $mintedNonce[n] == old($mintedNonce[n])
+//@   modifies $mintedNonce, $saved, $nsaved
+
+//@ func getAuthorizerCount
+//@   trusted
+//@   ensures result1 == nil ==> result0 == $numAuth && result0 >= 0
+//@   modifies nothing
+
+//@ func (*MintPayload).Decode
+//@   trusted
+//@   ensures result == nil ==> forall i in 0..len(mp.Signatures) :: mp.Signatures[i] != nil
+//@   modifies mp.EthereumTxnID, mp.Amount, mp.Nonce, mp.Signatures, mp.ReceivingClientID
+
+// distinct authorizer ids, all taken from the payload
+//@ func (*MintPayload).getUniqueSignatures
+//@   trusted
+//@   ensures forall i in 0..len(result) :: result[i] != nil
+//@   ensures forall i in 0..len(result) :: forall j in i+1..len(result) :: result[i].ID != result[j].ID
+//@   ensures forall i in 0..len(result) :: exists k in 0..len(mp.Signatures) :: mp.Signatures[k] == result[i]
+//@   ensures len(result) <= len(mp.Signatures) && fresh(result)
+//@   modifies nothing
+
+//@ func (*ZCNSmartContract).getStakePool
+//@   trusted
+//@   ensures err == nil ==> sp != nil && fresh(sp)
+//@   modifies nothing
+
+//@ func (*StakePool).save
+//@   trusted
+//@   modifies $saved, $nsaved
+
+//@ func (*MintPayload).Encode
+//@   trusted
+//@   modifies nothing
+
+// ---------------------------------------------------------------- mint (C18)
+// Tokens are minted (the transfer bridge -> client is queued) only after: the payload's
+// receiving client is the submitter, the nonce was newly recorded, every distinct signature
+// verified under its authorizer's registered key, and the number of distinct valid signatures
+// reaches the threshold; the client gets the requested amount minus the authorizers' share.
+//@ func (*ZCNSmartContract).mint
+//@   prop C18
+//@   requires zcn != nil && trans != nil
+//@   at-call DistributeRewards assert[receiver-is-submitter] payload.ReceivingClientID == trans.ClientID
+//@   at-call DistributeRewards assert[nonce-new] $mintedNonce[payload.Nonce] && !old($mintedNonce[payload.Nonce])
+//@   at-call DistributeRewards assert[quorum] len(uniqueSignatures) >= threshold && numAuth == $numAuth && numAuth > 0
+//@   at-call DistributeRewards assert[all-verified] forall i in 0..len(uniqueSignatures) :: sig_valid($authKey[uniqueSignatures[i].ID], uniqueSignatures[i].Signature, mint_msg(payload))
+//@   at-call DistributeRewards assert[distinct] forall i in 0..len(uniqueSignatures) :: forall j in i+1..len(uniqueSignatures) :: uniqueSignatures[i].ID != uniqueSignatures[j].ID
+//@   at-call DistributeRewards assert[no-transfer-yet] $ntr == old($ntr)
+//@   at-call DistributeRewards assert[fee-share] share <= gn.MaxFee && payload.Amount == amount
+//@   at-call AddTransfer assert[amount] payload.Amount == amount && $ntr == old($ntr)
+//@   ensures err == nil ==> $ntr == old($ntr) + 1 && $in[trans.ClientID] >= old($in[trans.ClientID]) && $out[ADDRESS] >= old($out[ADDRESS])
+//@   ensures err == nil ==> forall c string :: (c != ADDRESS ==> $out[c] == old($out[c])) && (c != trans.ClientID ==> $in[c] == old($in[c]))
+
 // ---------------------------------------------------------------- burn (C19)
 // A successful burn queues exactly one transfer of the transaction value from the burner to the
 // bridge wallet and stores the user node with the nonce raised by exactly one; nothing is stored
